@@ -71,6 +71,43 @@ def many_photons(ctx, lw, rng):
     drain_into(ctx, case)
 
 
+def large_basis(ctx, lw, rng):
+    """Distributions over 300 - 1400 full output patterns: a 9-12 mode unitary (optionally one loss element) with heralds
+    carrying photons, 3-4 photons in total; both backends, judged by the distribution post-conditions."""
+    State, emu = lw.State, lw.emulator
+    from ..gen import haar
+    n = int(rng.choice([9, 10, 11, 12]))
+    c = lw.Unitary(haar(rng, n))
+    log = [["unitary", n]]
+    hp = 0
+    for m_ in rng.choice(n, size=int(rng.integers(0, 3)), replace=False):
+        nh_ = int(rng.choice([0, 1]))
+        c.herald(nh_, int(m_)); log.append(["herald", nh_, int(m_)]); hp += nh_
+    if rng.random() < 0.3 and n <= 10:
+        c.loss(int(rng.integers(c.input_modes)), float(rng.uniform(0.05, 0.5))); log.append(["loss"])
+    nph = (3 if n >= 11 else int(rng.choice([3, 4]))) - hp
+    occ = random_state(rng, c.input_modes, max(nph, 1))
+    case = {"circuit": log, "input": occ}
+    ctx.bucket("large_output_basis")
+    dists = {}
+    for backend in ("permanent", "slos"):
+        try:
+            d = emu.Sampler(c, State(occ), backend=backend).probability_distribution
+            dists[backend] = {tuple(st): p for st, p in d.items()}
+        except Exception as e:  # noqa: BLE001
+            ctx.violation(f"Sampler({backend}).probability_distribution raised {type(e).__name__}: {e}", case=case,
+                          mechanism="distribution_raised:" + type(e).__name__, monitor="driver")
+    if len(dists) == 2:
+        ctx.count("cross_backend_comparisons")
+        keys = set(dists["permanent"]) | set(dists["slos"])
+        worst = max((abs(dists["permanent"].get(q, 0) - dists["slos"].get(q, 0)) for q in keys), default=0)
+        if worst > 2e-9 * boson.n_fock(c.U_full.shape[0], sum(occ) + hp) + 1e-9:
+            ctx.violation(f"permanent and slos distributions differ by {worst:.3g}", case=case,
+                          mechanism="backends_disagree", monitor="cross-backend comparison")
+    ctx.case(("large", n, tuple(sorted(occ)), len(log)), True, sample=case)
+    drain_into(ctx, case)
+
+
 def run(ctx):
     lw = setup(ctx)
     emumon.install()
@@ -82,6 +119,8 @@ def run(ctx):
     while not ctx.out_of_time():
         if rng.random() < 0.04:
             many_photons(ctx, lw, rng)
+        if rng.random() < 0.03:
+            large_basis(ctx, lw, rng)
         loss_p = float(rng.choice([0.0, 0.25, 0.5]))
         b = Builder(rng, lw, loss_p=loss_p, max_herald_photons=1)
         if loss_p == 0:
